@@ -234,7 +234,7 @@ func runC11(c *Ctx, r *Rec) {
 		}
 	}
 	if intrFD == nil {
-		r.undecided("D3-intrinsic-alternatives", "cdcn.parser/intrinsics", "", "cannot bind the intrinsic parser")
+		r.skip("D3-intrinsic-alternatives", "cdcn.parser/intrinsics", "", "cannot bind the intrinsic parser")
 	} else {
 		var alts []string
 		ast.Inspect(intrFD.Body, func(x ast.Node) bool {
